@@ -13,6 +13,7 @@ mod c04;
 mod c13;
 mod c05;
 mod c07;
+mod c12;
 
 fn main() {
     common::install_panic_hook();
@@ -33,6 +34,7 @@ fn main() {
         "group" => c13::run(&args),
         "reject" => c05::run(&args),
         "foci" => c07::run(&args),
+        "masks" | "masks-child" => c12::run(&args),
         s => {
             eprintln!("unknown stream {s}");
             std::process::exit(2);
